@@ -17749,7 +17749,8 @@ class HFSM2_EMPTY_BASES InstanceT<
 							>
 						  , TApex
 						> final
-	: public			RC_<
+	: public			RNGT<TUtility>
+	, public			RC_<
 							G_<
 								NFeatureTag
 							  , TContext
@@ -17764,7 +17765,6 @@ class HFSM2_EMPTY_BASES InstanceT<
 							>
 						  , TApex
 						>
-	, public			RNGT<TUtility>
 {
 	using Base =		RC_<
 							G_<
@@ -17794,10 +17794,10 @@ public:
 public:
 	HFSM2_CONSTEXPR(14)	explicit InstanceT(Context& context
 										 HFSM2_IF_LOG_INTERFACE(, Logger* const logger = nullptr))	noexcept
-		: Base{context
+		: RNGT<TUtility>{0}
+		, Base{context
 			 , static_cast<RNGT<TUtility>&>(*this)
 			 HFSM2_IF_LOG_INTERFACE(, logger)}
-		, RNGT<TUtility>{0}
 	{}
 };
 
@@ -17833,7 +17833,8 @@ class HFSM2_EMPTY_BASES InstanceT<
 							>
 						  , TApex
 						> final
-	: public			RC_<
+	: public			RNGT<TUtility>
+	, public			RC_<
 							G_<
 								NFeatureTag
 							  , EmptyContext
@@ -17848,7 +17849,6 @@ class HFSM2_EMPTY_BASES InstanceT<
 							>
 						  , TApex
 						>
-	, public RNGT<TUtility>
 {
 	using Base =		RC_<
 							G_<
@@ -17875,9 +17875,9 @@ public:
 
 public:
 	HFSM2_CONSTEXPR(14)	explicit InstanceT(HFSM2_IF_LOG_INTERFACE(Logger* const logger = nullptr))	noexcept
-		: Base{static_cast<RNGT<TUtility>&>(*this)
+		: RNGT<TUtility>{0}
+		, Base{static_cast<RNGT<TUtility>&>(*this)
 			 HFSM2_IF_LOG_INTERFACE(, logger)}
-		, RNGT<TUtility>{0}
 	{}
 };
 
